@@ -22,7 +22,7 @@ for d in sorted(os.listdir(os.path.join(V, "seeded"))):
 s = open(os.path.join(V, "DESIGN.md")).read()
 start = "<!-- seed-table-begin -->"
 end = "<!-- seed-table-end -->"
-block = (start + "\n\n**Round 2** (S09–S40; two independent changes per property, C09–C20 first, then a second pass over C01–C04):\n\n"
+block = (start + "\n\n**Rounds 2 and 3** (S09–S68; two independent changes per property and round):\n\n"
          "| seed | property | change (one line) | needs | first run | now caught by |\n|---|---|---|---|---|---|\n" + "\n".join(rows) + "\n\n" + end)
 if start in s:
     s = s[:s.index(start)] + block + s[s.index(end) + len(end):]
